@@ -90,6 +90,14 @@ pub fn to_geo<F: Fl>(mp: &IMp, k: i32) -> MultiPolygon<F> {
     MultiPolygon(mp.iter().map(|p| Polygon::new(ls(&p.ext), p.holes.iter().map(ls).collect())).collect())
 }
 
+/// like `to_geo`, but zeros are written as -0.0 on the chosen axes (what negating the float
+/// coordinates of an operand - a reflection - really produces)
+pub fn to_geo_nz<F: Fl>(mp: &IMp, k: i32, nz: (bool, bool)) -> MultiPolygon<F> {
+    let z = |v: f64, neg: bool| if neg && v == 0.0 { -0.0 } else { v };
+    let ls = |r: &Vec<P>| LineString(r.iter().map(|p| { let (x, y) = frame_xy(*p, k); Coord { x: F::from_f64(z(x, nz.0)), y: F::from_f64(z(y, nz.1)) } }).collect());
+    MultiPolygon(mp.iter().map(|p| Polygon::new(ls(&p.ext), p.holes.iter().map(ls).collect())).collect())
+}
+
 /// A result (or operand) as seen through the public API, snapped to the integer frame:
 /// every vertex as [nearest x, nearest y, deviation] plus a digest of the raw bits.
 #[derive(Clone, Debug, PartialEq)]
